@@ -357,6 +357,7 @@ fn op(u: &mut U, p: &GenProfile) -> Op {
         w.scan,
         w.iter_open,
         w.iter_step,
+        w.swapped,
     ];
     match u.weighted(&weights) {
         0 => Op::Insert {
@@ -422,6 +423,11 @@ fn op(u: &mut U, p: &GenProfile) -> Op {
         16 => Op::DropRange { lo: bound(u), hi: bound(u) },
         17 => Op::Clear,
         18 => Op::Scan(scan_spec(u, weak)),
+        21 => Op::Swapped {
+            a: u.u16(),
+            b: u.u16(),
+            len: u.below(240) as u8,
+        },
         19 => Op::IterOpen {
             lo: bound(u),
             hi: bound(u),
